@@ -4,6 +4,7 @@ CONSTANTS
   Emit = TRUE
   RandomGraphs = 40
   EdgeCounts = {4, 8, 11, 14, 18, 24}
+  Shapes = {}
   SliceK = 0
   SliceM = 1
 INVARIANTS EmitReplay
